@@ -119,3 +119,12 @@ Theorem C05_prefix_entries_unchanged : forall c st st' p a x,
   resolve_pending c st = ROk st' -> get_entry x st' = get_entry x st.
 Proof. exact resolve_pending_frame. Qed.
 Print Assumptions C05_prefix_entries_unchanged.
+
+(** The last hop: [push_arg_values] appends the collected (delimited) values, in order and
+    byte for byte, to the last value group of the positional's entry. *)
+Theorem C05_values_appended : forall c a raw st st' m gs g,
+  push_arg_values c a raw st = ROk st' ->
+  get_entry (a_id a) st = Some m -> m_raw m = gs ++ [g] ->
+  exists m', get_entry (a_id a) st' = Some m' /\ m_raw m' = gs ++ [g ++ raw].
+Proof. exact push_arg_values_entry. Qed.
+Print Assumptions C05_values_appended.
